@@ -84,6 +84,19 @@ func singles(s uint32, thorough bool) []pager.RTx {
 			}
 		}
 	}
+	// Pages appended, spilled to the file, and partly or wholly freed again before the commit (peak size above the final size).
+	if s >= 2 {
+		for _, fin := range []string{"DELETE", "TRUNCATE", "PERSIST"} {
+			for _, oc := range []string{"commit", "rollback"} {
+				for _, sync := range []int{0, 2} {
+					out = append(out,
+						pager.RTx{Mods: []uint32{2}, NewSize: s + 2, Peak: s + 4, SpillAfter: []int{1}, SyncMode: sync, Final: fin, Outcome: oc},
+						pager.RTx{Mods: []uint32{2}, Peak: s + 3, SpillAfter: []int{1}, SyncMode: sync, Final: fin, Outcome: oc},
+						pager.RTx{Mods: []uint32{2, s}, NewSize: s + 1, Peak: s + 258, SpillAfter: []int{2}, SyncMode: sync, Final: fin, Outcome: oc})
+				}
+			}
+		}
+	}
 	for _, fin := range []string{"DELETE", "TRUNCATE", "PERSIST"} {
 		out = append(out, pager.RTx{Final: fin, Outcome: "lockonly"})
 		out = append(out, pager.RTx{Mods: []uint32{2}, Final: fin, Outcome: "commit", SameBytes: true})
@@ -111,6 +124,7 @@ func core(s uint32) []pager.RTx {
 		pager.RTx{Mods: []uint32{2}, SyncMode: 2, Final: "PERSIST", Outcome: "rollback"},
 		pager.RTx{Final: "DELETE", Outcome: "lockonly"},
 		pager.RTx{Mods: []uint32{2}, SyncMode: 2, NewSize: s + 1, Final: "DELETE", Outcome: "commit"},
+		pager.RTx{Mods: []uint32{2}, NewSize: s + 1, Peak: s + 3, SpillAfter: []int{1}, Final: "DELETE", Outcome: "commit"},
 	)
 	return out
 }
